@@ -325,6 +325,64 @@ def laplace (f : Fld) : M Fld :=
       | .error e => .error e
       | .ok ds => stack ds
 
+/-! ## one quarter turn (`k = 1`), as far as C05's commutation claim needs it -/
+
+/-- `np.rot90(A, k=1, axes=(a, b))` = `swapaxes(flip(A, b), a, b)`:
+`R[…, i_a, …, i_b, …] = A[…, i_b, …, n_b - 1 - i_a, …]` -/
+def rot90Arr {α} (A : NDA α) (a b : Nat) : NDA α :=
+  ⟨swapAt A.shape a b, fun i => A.get (setAt (setAt i a (i.getD b 0)) b (A.shape.getD b 0 - 1 - i.getD a 0))⟩
+
+/-- `Region.rotate90(ax1, ax2, k=1, reference_point=ref)` (copy form): the in-plane offsets of
+both corners are turned by the exact quarter-turn matrix `[[0,-1],[1,0]]`, the constructor
+re-normalises the corners; the units of the two axes are swapped -/
+def rotRegion (r : Region) (a b : Nat) (ref : List Rat) : M Region :=
+  Region.mk?
+    (setAt (setAt r.pmin a (ref.getD a 0 - (r.lo b - ref.getD b 0))) b (ref.getD b 0 + (r.lo a - ref.getD a 0)))
+    (setAt (setAt r.pmax a (ref.getD a 0 - (r.hi b - ref.getD b 0))) b (ref.getD b 0 + (r.hi a - ref.getD a 0)))
+    (some r.dims) (some (swapAt r.units a b)) r.tol
+
+/-- `Mesh.rotate90(ax1, ax2, k=1)` (copy form, about the region's centre); `bc` is kept as it is -/
+def rotMesh (m : Mesh) (da db : String) : M Mesh :=
+  if da = db then .error .value
+  else
+    match indexOf? m.region.dims da, indexOf? m.region.dims db with
+    | some a, some b =>
+      match rotRegion m.region a b m.region.center with
+      | .error e => .error e
+      | .ok r =>
+        match mapE (fun (s : String × Region) =>
+            match rotRegion s.2 a b m.region.center with
+            | .error e => .error e
+            | .ok r' => .ok (s.1, r')) m.subs with
+        | .error e => .error e
+        | .ok subs =>
+          match Mesh.mkN? r (swapAt m.n a b) m.bc with
+          | .error e => .error e
+          | .ok m' => .ok { m' with subs := subs }
+    | _, _ => .error .value
+
+/-- the in-plane components of a vector after one quarter turn: `v[v1] ← -v[v2]`, then
+`v[v2] ← (old) v[v1]` (exact values of cos/sin(π/2)) -/
+def turnVec (v : List Rat) (v1 v2 : Nat) : List Rat :=
+  setAt (setAt v v1 (-(v.getD v2 0))) v2 (v.getD v1 0)
+
+/-- `Field.rotate90(ax1, ax2, k=1)` (copy form) -/
+def rot90Fld (f : Fld) (da db : String) : M Fld :=
+  match rotMesh f.mesh da db with
+  | .error e => .error e
+  | .ok mesh' =>
+    match indexOf? f.mesh.region.dims da, indexOf? f.mesh.region.dims db with
+    | some a, some b =>
+      if 1 < f.nvdim then
+        match (rDimLast f da).bind f.vdimIndex, (rDimLast f db).bind f.vdimIndex with
+        | some v1, some v2 =>
+          mkFld mesh' f.nvdim
+            ⟨swapAt f.data.shape a b, fun i => turnVec ((rot90Arr f.data a b).get i) v1 v2⟩
+            (rot90Arr f.valid a b) f.vdims (some f.vmap) f.unit
+        | _, _ => .error .runtime
+      else mkFld mesh' f.nvdim (rot90Arr f.data a b) (rot90Arr f.valid a b) f.vdims (some f.vmap) f.unit
+    | _, _ => .error .value
+
 /-! ## spec layer: index-level quantities the property theorems are stated against -/
 
 /-- is axis `ax` a periodic direction of the mesh of `f` (as `Field.diff` decides it) -/
